@@ -415,8 +415,11 @@ Section Step.
   (* str.isascii() *)
   Definition str_isascii (s : text) : bool := forallb (fun c => (0 <=? c) && (c <? 128)) s.
 
-  (* int(rest) after rest.isascii() and rest.isdigit(): None = int() raises (isdigit alone is wider than what int()
-     accepts; with the isascii() guard the None case is unreachable, Proofs/SessionShape.rest_never_crashes) *)
+  (* int(rest) after rest.isascii() and rest.isdigit() and len(rest) <= 18: None = int() raises (isdigit alone is wider
+     than what int() accepts; with the isascii() guard the None case is unreachable, Proofs/SessionShape.rest_never_crashes).
+     CPython's int() ALSO refuses digit strings longer than sys.get_int_max_str_digits() (4300 by default, never below
+     640): the handler's length bound (18 digits: every offset below 10^18 < 2^63) keeps int() inside what this total
+     function describes, on every interpreter configuration (repair of F23) *)
   Definition int_of_digits (s : text) : option Z :=
     fold_left (fun acc c => match acc, decimal_val c with
                             | Some a, Some d => Some (a * 10 + d)
@@ -533,7 +536,7 @@ Section Step.
       end
     else if String.eqb name "abor" then reply w "226"
     else if String.eqb name "rest" then
-      if str_isascii arg && str_isdigit arg then
+      if str_isascii arg && str_isdigit arg && (Z.of_nat (List.length arg) <=? 18) then
         match int_of_digits arg with
         | Some z => (set_sess w (set_rest s z), mk_out [code "350"], true)
         | None => (w, mk_out [], false)         (* int() would raise: unreachable for ASCII digits (rest_never_crashes) *)
